@@ -1,18 +1,313 @@
-(** * Ctl: per-property trace oracles over observed traces, and the correspondence entry points *)
+(** * Ctl: the properties as executable predicates over *observed* traces, and the correspondence
+    entry points.  Each oracle looks only at what the harness can see (Corr.obs) and at the events'
+    scripts; Proofs.v shows that every trace of the model satisfies them. *)
 From Coq Require Import List ZArith Bool Arith.
 From Jiva Require Import Ctl.Model Ctl.Corr.
 Import ListNotations.
 Open Scope Z_scope.
 
-Definition check_diff (c : case) : option (nat * nat) :=
-  first_diff (c_n c) 0 (init (c_rf c) (c_world c)) (c_events c) (c_obs c).
+Definition mem (a : nat) (l : list nat) : bool := existsb (Nat.eqb a) l.
+Definition addrs_of (l : list (addr * mode)) : list addr := map fst l.
+Definition in_service (l : list (addr * mode)) : list addr :=
+  map fst (filter (fun p => negb (mode_eqb (snd p) ERR)) l).
+Definition rw_of (l : list (addr * mode)) : list addr :=
+  map fst (filter (fun p => is_rw (snd p)) l).
+Definition wo_of (l : list (addr * mode)) : list addr :=
+  map fst (filter (fun p => mode_eqb (snd p) WO) l).
+Definition applied_of (o : obs) (a : addr) : list nat :=
+  match nth_error (o_reps o) a with Some r => o_applied r | None => [] end.
+Definition rep_of (o : obs) (a : addr) : option repobs := nth_error (o_reps o) a.
+Definition holds (o : obs) (a : addr) (wid : nat) : bool := mem wid (applied_of o a).
+Definition same_reps (a b : obs) (x : addr) : bool :=
+  match rep_of a x, rep_of b x with
+  | Some p, Some q => Nat.eqb (rep_diff true p q) 0
+  | None, None => true
+  | _, _ => false
+  end.
+Definition is_ack (o : obs) : bool := res_eqb (o_res o) ROk.
 
-Fixpoint bad_cases (i : nat) (cs : list case) : list (nat * (nat * nat)) :=
+(** what the event is, for the oracles *)
+Definition is_io (e : event) : bool :=
+  match e with Write _ _ _ _ | Sync _ | Unmap _ => true | _ => false end.
+Definition ev_faults (e : event) : faults :=
+  match e with
+  | Register _ _ _ _ _ fs | Start _ fs | AddCheck _ fs | AddCommit _ fs | Verify _ fs | Remove _ fs
+  | MonFire _ fs | MonFail _ fs | Write _ _ _ fs | Sync fs | Unmap fs | Read _ _ _ fs
+  | Snapshot _ fs | Resize _ fs => fs
+  | SetMode _ _ => []
+  end.
+
+(** ** C02: ack only after a strict majority of the attached replicas applied it; laggards detached *)
+Definition c02_step (rf0 : nat) (prev : obs) (e : event) (cur : obs) : bool :=
+  match e with
+  | Write wid _ _ fs =>
+      let att := in_service (o_replicas prev) in
+      let applied := filter (fun a => holds cur a wid) att in
+      if is_ack cur then
+        (* strictly more than half of the attached replicas applied it, one of them RW *)
+        Nat.ltb (length att) (2 * length applied)
+        && existsb (fun a => mem a (rw_of (o_replicas prev))) applied
+        (* every attached replica that failed it is detached now *)
+        && forallb (fun a => if flt fs a KWrite || flt fs a KWriteAp then negb (mem a (addrs_of (o_replicas cur))) else true) att
+        (* every replica still in service holds it *)
+        && forallb (fun a => holds cur a wid) (in_service (o_replicas cur))
+      else true
+  | Sync fs =>
+      let att := in_service (o_replicas prev) in
+      let okc := filter (fun a => negb (flt fs a KSync)) att in
+      if is_ack cur then
+        Nat.ltb (length att) (2 * length okc)
+        && forallb (fun a => if flt fs a KSync then negb (mem a (addrs_of (o_replicas cur))) else true) att
+      else true
+  | _ => true
+  end.
+
+(** ** C03: mutating I/O only with a quorum of RW replicas; status always re-evaluated *)
+Definition quorum_ok (rf0 : nat) (l : list (addr * mode)) : bool :=
+  Nat.leb (quorum rf0) (count_rw l).
+Definition untouched (prev cur : obs) : bool :=
+  forallb (fun a => same_reps prev cur a) (seq 0 (length (o_reps prev))).
+
+Definition c03_step (rf0 : nat) (prev : obs) (e : event) (cur : obs) : bool :=
+  (* the status reported after every event is the one the membership implies *)
+  Bool.eqb (o_ro cur) (negb (quorum_ok rf0 (o_replicas cur)))
+  && Nat.eqb (o_rwc cur) (count_rw (o_replicas cur))
+  && (if is_io e
+      then if quorum_ok rf0 (o_replicas prev) then true
+           else negb (is_ack cur) && untouched prev cur && lrep_eqb (o_replicas prev) (o_replicas cur)
+      else true).
+
+(** ** C04: reads only from RW replicas, fail-over detaches the failed reader *)
+Definition c04_step (rf0 : nat) (prev : obs) (e : event) (cur : obs) : bool :=
+  match e with
+  | Read off len order fs =>
+      let rws := rw_of (o_replicas prev) in
+      match o_served cur with
+      | Some a =>
+          is_ack cur && mem a rws
+          && forallb (fun x => mem x rws) order
+          && forallb (fun x => if Nat.eqb x a then true else negb (mem x (addrs_of (o_replicas cur)))) order
+      | None =>
+          negb (is_ack cur)
+          (* inside the volume it may only fail if no RW replica could serve it *)
+          && ((off <? 0) || (o_size prev <? off + len) || forallb (fun x => flt fs x KRead) rws)
+      end
+  | _ => true
+  end.
+
+(** ** C05: a failing minority is isolated, the operation in flight succeeds, it comes back only
+    through add *)
+Definition io_kind_fail (e : event) (a : addr) : bool :=
+  match e with
+  | Write _ _ _ fs => flt fs a KWrite || flt fs a KWriteAp
+  | Sync fs => flt fs a KSync
+  | Unmap fs => flt fs a KUnmap
+  | _ => false
+  end.
+
+Definition c05_step (rf0 : nat) (prev : obs) (e : event) (cur : obs) : bool :=
+  let att := in_service (o_replicas prev) in
+  (* failed replicas are gone after the event (when the I/O reached the replicas at all) *)
+  (if is_io e && quorum_ok rf0 (o_replicas prev) && negb (Nat.eqb (length (rw_of (o_replicas prev))) 0)
+   then forallb (fun a => if io_kind_fail e a then negb (mem a (addrs_of (o_replicas cur))) else true) att
+   else true)
+  (* a minority failing does not surface: the survivors are a strict majority containing an RW *)
+  && (match e with
+      | Write _ off len _ =>
+          let good := filter (fun a => negb (io_kind_fail e a)) att in
+          if quorum_ok rf0 (o_replicas prev) && (0 <=? off) && (off + len <=? o_size prev)
+             && Nat.ltb (length att) (2 * length good)
+             && existsb (fun a => mem a (rw_of (o_replicas prev))) good
+          then is_ack cur else true
+      | _ => true
+      end)
+  (* replicas enter the set only through add (as WO) or start *)
+  && forallb (fun p =>
+        if mem (fst p) (addrs_of (o_replicas prev)) then true
+        else match e with
+             | AddCommit a _ => Nat.eqb a (fst p) && mode_eqb (snd p) WO
+             | Start _ _ => Nat.eqb (length (o_replicas prev)) 0
+             | _ => false
+             end) (o_replicas cur)
+  (* nobody outside the set receives I/O *)
+  && (if is_io e
+      then forallb (fun a => if mem a att then true else same_reps prev cur a) (seq 0 (length (o_reps prev)))
+      else true).
+
+(** ** C18: bookkeeping consistent at quiescent points *)
+Definition c18_step (rf0 : nat) (quiescent : bool) (prev : obs) (e : event) (cur : obs) : bool :=
+  nodupb (addrs_of (o_replicas cur))
+  && Nat.leb (length (o_replicas cur)) rf0
+  && Nat.leb (length (wo_of (o_replicas cur))) 1
+  && (if quiescent then Nat.eqb (o_rwc cur) (count_rw (o_replicas cur)) else true)
+  && (match e with
+      | Write _ _ _ _ | Sync _ | Unmap _ | Read _ _ _ _ | Snapshot _ _ | Resize _ _ =>
+          forallb (fun a => if mem a (addrs_of (o_replicas prev)) then true else same_reps prev cur a)
+                  (seq 0 (length (o_reps prev)))
+      | _ => true
+      end).
+
+(** ** C13: snapshot gate and checkpoint soundness *)
+Definition chain_of (o : obs) (a : addr) : list nat :=
+  match rep_of o a with Some r => o_chain r | None => [] end.
+Definition c13_step (rf0 : nat) (quiescent : bool) (prev : obs) (e : event) (cur : obs) : bool :=
+  (match e with
+   | Snapshot n _ =>
+       (* refused, touching nobody, unless all rf replicas are RW *)
+       if Nat.eqb (count_rw (o_replicas prev)) rf0 && Nat.eqb (length (o_replicas prev)) rf0 then true
+       else negb (is_ack cur) && untouched prev cur
+   | _ => true
+   end)
+  && (match (if quiescent then o_checkpoint cur else None) with
+      | None => true
+      | Some s =>
+          Nat.eqb (count_rw (o_replicas cur)) rf0 && Nat.eqb (length (o_replicas cur)) rf0
+          && forallb (fun a => mem s (chain_of cur a)
+                               (* at the moment it is recorded it is every replica's latest snapshot *)
+                               && (if onat_eqb (o_checkpoint prev) (Some s) then true
+                                   else match chain_of cur a with h :: _ => Nat.eqb h s | [] => false end)
+                               && match rep_of cur a with Some r => onat_eqb (o_cp r) (Some s) | None => false end)
+                     (addrs_of (o_replicas cur))
+      end).
+
+(** ** C09: bootstrap election *)
+(** oracle memory: the latest registration record of every address *)
+Definition regs := list (addr * (Z * bool)).
+Definition regs_upd (g : regs) (e : event) : regs :=
+  match e with
+  | Register a u rev reb _ _ => if Nat.eqb u 0 then g else aset g a (rev, reb)
+  | _ => g
+  end.
+Definition reg_of (g : regs) (a : addr) : Z * bool :=
+  match aget g a with Some x => x | None => (0, true) end.
+
+Definition c09_step (rf0 : nat) (g : regs) (prev : obs) (e : event) (cur : obs) : bool :=
+  let starts := map fst (filter (fun p => snd p) (o_signals cur)) in
+  match e with
+  | Register a u _ _ _ fs =>
+      let g1 := regs_upd g e in
+      (* a start signal only with a majority registered (before anybody is dropped) *)
+      forallb (fun m =>
+        (* the registered replicas at the moment of the signal: those still registered plus the target
+           (which is dropped again when the signal fails) *)
+        let pool := if mem m (o_registered cur) then o_registered cur else m :: o_registered cur in
+        Nat.leb (quorum rf0) (length pool)
+        && Nat.eqb (length (o_replicas prev)) 0
+        (* the target is not rebuilding and has the highest revision among the registered ones that
+           are not rebuilding and were not found unreachable *)
+        && negb (snd (reg_of g1 m))
+        && forallb (fun x => if snd (reg_of g1 x) || flt fs x KSignal || flt fs x KAlive then true
+                             else fst (reg_of g1 x) <=? fst (reg_of g1 m)) pool) starts
+      (* one registration, at most one start signal *)
+      && Nat.leb (length starts) 1
+  | Start addrs _ =>
+      (* only the signalled replica can start the volume *)
+      (if Nat.eqb (length (o_replicas prev)) 0 && negb (Nat.eqb (length (o_replicas cur)) 0)
+       then match addrs, o_maxrev prev with
+            | a0 :: _, Some m => Nat.eqb a0 m && o_signalled prev
+            | _, _ => false
+            end
+       else true)
+      (* replicas found behind at start-up are not readers *)
+      && (if is_ack cur && Nat.eqb (length (o_replicas prev)) 0
+          then let revs := map (fun a => match rep_of cur a with Some r => o_rev r | None => 0 end) (addrs_of (o_replicas cur)) in
+               let mx := fold_left Z.max revs 0 in
+               forallb (fun p => match rep_of cur (fst p) with
+                                 | Some r => if o_rev r <? mx then negb (is_rw (snd p)) else true
+                                 | None => false end) (o_replicas cur)
+          else true)
+      && Nat.eqb (length starts) 0
+  | _ => Nat.eqb (length starts) 0
+  end.
+
+(** ** running the oracles over a whole observed trace *)
+Record verdict := mkverdict {
+  v_diff : option (nat * nat);
+  v_c02 : option nat; v_c03 : option nat; v_c04 : option nat; v_c05 : option nat;
+  v_c09 : option nat; v_c13 : option nat; v_c18 : option nat      (* first step at which the oracle fails *)
+}.
+
+Definition obs0 (rf0 n : nat) (w0 : world) : obs := observe n (init rf0 w0) ROk noeff.
+
+(** is the controller quiescent after the observed prefix: the harness reports the number of
+    undelivered monitor notifications through the pseudo-field [pending] (list aligned with obs) *)
+Fixpoint walk (f : obs -> event -> obs -> bool) (i : nat) (prev : obs) (es : list event) (os : list obs) : option nat :=
+  match es, os with
+  | e :: t, o :: os' => if f prev e o then walk f (S i) o t os' else Some i
+  | _, _ => None
+  end.
+
+Fixpoint walk_q (f : bool -> obs -> event -> obs -> bool) (i : nat) (prev : obs) (es : list event) (os : list obs) (qs : list bool) : option nat :=
+  match es, os, qs with
+  | e :: t, o :: os', q :: qs' => if f q prev e o then walk_q f (S i) o t os' qs' else Some i
+  | _, _, _ => None
+  end.
+
+Fixpoint walk_g (f : regs -> obs -> event -> obs -> bool) (i : nat) (g : regs) (prev : obs) (es : list event) (os : list obs) : option nat :=
+  match es, os with
+  | e :: t, o :: os' => if f g prev e o then walk_g f (S i) (regs_upd g e) o t os' else Some i
+  | _, _ => None
+  end.
+
+Record xcase := mkxcase { x_case : case; x_quiet : list bool }.
+
+Definition check_case (x : xcase) : verdict :=
+  let c := x_case x in
+  let rf0 := c_rf c in
+  let o0 := obs0 rf0 (c_n c) (c_world c) in
+  mkverdict
+    (first_diff (c_n c) 0 (init rf0 (c_world c)) (c_events c) (c_obs c))
+    (walk (c02_step rf0) 0 o0 (c_events c) (c_obs c))
+    (walk (c03_step rf0) 0 o0 (c_events c) (c_obs c))
+    (walk (c04_step rf0) 0 o0 (c_events c) (c_obs c))
+    (walk (c05_step rf0) 0 o0 (c_events c) (c_obs c))
+    (walk_g (c09_step rf0) 0 [] o0 (c_events c) (c_obs c))
+    (walk_q (c13_step rf0) 0 o0 (c_events c) (c_obs c) (x_quiet x))
+    (walk_q (c18_step rf0) 0 o0 (c_events c) (c_obs c) (x_quiet x)).
+
+Definition on (o : option nat) : nat := match o with Some i => S i | None => 0%nat end.
+
+(** per bad case: (index, (diff step, diff field), [oracle failure step+1 or 0] for C02 C03 C04 C05 C09 C13 C18) *)
+Fixpoint bad_cases (i : nat) (cs : list xcase) : list (nat * (nat * nat) * list nat) :=
   match cs with
   | [] => []
-  | c :: t => match check_diff c with
-              | Some d => (i, d) :: bad_cases (S i) t
-              | None => bad_cases (S i) t
-              end
+  | c :: t =>
+      let v := check_case c in
+      let fl := [on (v_c02 v); on (v_c03 v); on (v_c04 v); on (v_c05 v); on (v_c09 v); on (v_c13 v); on (v_c18 v)] in
+      let d := match v_diff v with Some d => d | None => (0, 0)%nat end in
+      if Nat.eqb (fold_left Nat.add fl 0%nat) 0%nat && match v_diff v with None => true | _ => false end
+      then bad_cases (S i) t
+      else (i, d, fl) :: bad_cases (S i) t
   end.
-Definition coverage (cs : list case) : list nat := map (fun c => length (c_events c)) cs.
+
+(** coverage flags per case, from the model's run:
+    1 a write acknowledged with a failing minority, 2 an I/O refused for lack of quorum, 4 a read failed over,
+    8 a start signal sent, 16 a checkpoint set, 32 a replica promoted by verify, 64 a monitor fired,
+    128 a failed operation (any), 256 three or more replicas attached at some point *)
+Definition b2n (b : bool) (k : nat) : nat := if b then k else 0%nat.
+Fixpoint flags_walk (n : nat) (s : cst) (es : list event) (acc : nat * nat * nat * nat * nat * nat * nat * nat * nat)
+  : nat * nat * nat * nat * nat * nat * nat * nat * nat :=
+  match es with
+  | [] => acc
+  | e :: t =>
+      let '(s1, r, ef) := step s e in
+      let '(f1, f2, f3, f4, f5, f6, f7, f8, f9) := acc in
+      let ack := res_eqb r ROk in
+      let acc' :=
+        (Nat.max f1 (b2n (match e with Write _ _ _ fs => ack && negb (Nat.eqb (length fs) 0) | _ => false end) 1),
+         Nat.max f2 (b2n (is_io e && res_eqb r RRefused) 2),
+         Nat.max f3 (b2n (match e with Read _ _ order _ => ack && Nat.ltb 1 (length order) | _ => false end) 4),
+         Nat.max f4 (b2n (existsb (fun p => snd p) (e_signals ef)) 8),
+         Nat.max f5 (b2n (match checkpoint s1 with Some _ => true | None => false end) 16),
+         Nat.max f6 (b2n (match e with Verify _ _ => ack && Nat.ltb (count_rw (replicas s)) (count_rw (replicas s1)) | _ => false end) 32),
+         Nat.max f7 (b2n (match e with MonFire _ _ | MonFail _ _ => ack | _ => false end) 64),
+         Nat.max f8 (b2n (res_eqb r RErr) 128),
+         Nat.max f9 (b2n (Nat.leb 3 (length (replicas s1))) 256)) in
+      flags_walk n s1 t acc'
+  end.
+Definition case_flags (x : xcase) : nat :=
+  let c := x_case x in
+  let '(f1, f2, f3, f4, f5, f6, f7, f8, f9) :=
+    flags_walk (c_n c) (init (c_rf c) (c_world c)) (c_events c) (0, 0, 0, 0, 0, 0, 0, 0, 0)%nat in
+  (f1 + f2 + f3 + f4 + f5 + f6 + f7 + f8 + f9)%nat.
+Definition coverage (cs : list xcase) : list nat := map case_flags cs.
